@@ -83,6 +83,23 @@ Proof.
   destruct i; discriminate.
 Qed.
 
+(** non-vacuity: an honest session with out-of-order chunk arrival, a timeout with retry on
+    the other peer and a duplicate (stale) response delivers 1..4 and stops successfully *)
+Definition honest_events : list event :=
+  [EHashSet 1 [101; 102; 103; 104]%N; ETick [];
+   EChunk 1 [mkBlk 3 103 102; mkBlk 4 104 103] false;
+   ETick [1%N];
+   EChunk 0 [mkBlk 1 101 100; mkBlk 2 102 101] false;
+   EChunk 1 [mkBlk 1 101 100; mkBlk 2 102 101] false;
+   EAddRsp 1 (Some 101%N) false; EAddRsp 2 (Some 102%N) false;
+   EAddRsp 3 (Some 103%N) false; EAddRsp 4 (Some 104%N) false].
+
+Example honest_run :
+  let '(s, o) := run f16_cfg (init_st 2 f16_anc) honest_events in
+  delivered o = [mkBlk 1 101 100; mkBlk 2 102 101; mkBlk 3 103 102; mkBlk 4 104 103]
+  /\ stops o = [E_OK] /\ stopped s = false.
+Proof. vm_compute. repeat split; reflexivity. Qed.
+
 (* ---- stopping ---- *)
 Theorem stopped_ignores_events : forall c s e, stopped s = true -> step c s e = (s, []).
 Proof. intros c s e H. unfold step, step_with. rewrite H. reflexivity. Qed.
